@@ -10,6 +10,7 @@ Template syntax.  Everything is ordinary Verus text except directive blocks made
     //|       ensures ..
     //@   loop <n> [iter <name>]                      R1: payload inserted before the body of the n-th loop (1-based,
     //|       invariant ..                                textual order); `iter` names the ghost iterator of a `for`
+    //@   loopend <n>                                 R2: payload (ghost block) inserted at the end of the n-th loop's body
     //@   before /<regex>/                            R2: payload inserted before the (single) line matching regex
     //@   after /<regex>/                             R2: ... after that line
     //@   let <name> : <type>                         R3: ascribe a type to `let [mut] name =`
@@ -253,6 +254,17 @@ def expand_fn(src, item_path, subs, log, tline):
                 edits.append((body_off + kw_off + mi.end(), 0, ' %s:' % m.group(3), ln))
             edits.append((body_off + brace_off, 0, '\n' + ptxt + '\n', ln))
             log.append({'rule': 'R1', 'item': name, 'what': 'loop %d invariant inserted (%d lines)' % (n, len(payload))})
+        elif d.startswith('loopend '):
+            n = int(d.split()[1])
+            if n > len(loops):
+                raise LostAnchor('%s: loop %d not found (%d loops)' % (name, n, len(loops)))
+            kw_off, brace_off, kw = loops[n - 1]
+            close = extract.match_close(body_msk, brace_off)
+            # insert at the start of the line holding the closing brace when that line holds nothing else
+            ls = body_msk.rfind('\n', 0, close) + 1
+            at = ls if body_msk[ls:close].strip() == '' else close
+            edits.append((body_off + at, 0, ptxt + '\n', ln))
+            log.append({'rule': 'R2', 'item': name, 'what': 'ghost block at end of loop %d body (%d lines)' % (n, len(payload))})
         elif d.startswith('before ') or d.startswith('after '):
             w, arg = d.split(' ', 1)
             rx = _regex_of(arg)
